@@ -5,9 +5,12 @@ Import ListNotations.
 
 (* context.get(id) is not None : the environment maps a variable to Some number or to None *)
 Definition env := N -> option num.
-Inductive eres := EOk (n:num) | EInexact | EValueError.
+(* ENonFinite: an OPERAND of an operation is nan/inf. The model has one non-finite value and does not follow IEEE arithmetic on it
+   (1/inf = 0, sgn(inf) = 1, inf == inf ...), so the result of such an operation is outside the model. A non-finite RESULT of an
+   operation on finite operands (division by zero -> nan) is an ordinary EOk NNonFinite. *)
+Inductive eres := EOk (n:num) | EInexact | EValueError | ENonFinite.
 
-Definition ebind (r:eres) (f:num -> eres) : eres := match r with EOk n => f n | other => other end.
+Definition ebind (r:eres) (f:num -> eres) : eres := match r with EOk NNonFinite => ENonFinite | EOk n => f n | other => other end.
 Definition operate (k:bk) (a b:num) : eres :=
   match k with
   | KAdd => EOk (nadd a b) | KSub => EOk (nsub a b) | KMul => EOk (nmul a b) | KDiv => EOk (ndiv a b)
